@@ -22,6 +22,7 @@ ap.add_argument("--src", default="/tmp/seed")
 ap.add_argument("--only")
 ap.add_argument("--skip-tests", action="store_true")
 ap.add_argument("--seed", default="1")
+ap.add_argument("--no-store", action="store_true", help="robustness probe: do not touch seeded/ (use with --skip-tests --seed N)")
 a = ap.parse_args()
 NOTES = json.load(open(os.path.join(HERE, "tools", "seed_notes.json")))
 WANT = set(json.load(open("/root/.vp/BASELINE.json"))["stable_pass"])
@@ -125,6 +126,11 @@ with ThreadPoolExecutor(a.jobs) as ex:
         results.append(res)
         print(json.dumps({k: res.get(k) for k in ("id", "confirmed", "demo_clean_rc", "demo_patched_rc", "tests", "error")}), {p: (c["violation"], c["subchecks"][:3]) for p, c in res.get("checks", {}).items()}, flush=True)
 sh("git -C /repo worktree prune")
+if a.no_store:
+    missed = [r["id"] for r in results if not any(c["violation"] for c in r.get("checks", {}).values())]
+    own_missed = [r["id"] for r in results if not r.get("checks", {}).get(r["id"][:3], {}).get("violation")]
+    print("seed", a.seed, "not caught by any listed check:", missed, "; not caught by the aimed check:", own_missed)
+    sys.exit(0)
 log = os.path.join(HERE, "seeded", "last_run.json")
 os.makedirs(os.path.dirname(log), exist_ok=True)
 prev = {r["id"]: r for r in json.load(open(log))} if os.path.exists(log) else {}
